@@ -8,6 +8,7 @@
 -/
 import DDProofs.Witness
 import DDProofs.SmallSupport
+import DDProofs.UsedObs
 namespace DD
 open Std
 
@@ -270,5 +271,125 @@ example : ∃ (m : Mgr) (u : Int) (names : List String), Inv m ∧ m.lastLen = n
     intro j hj
     have : j ≠ 0 := by simpa using hj
     exact upd_other _ _ _ _ this
+
+/-! ### non-vacuity on a USED manager
+
+`usedM` (DDProofs.UsedExample): levels 0..3 = c, a, d, b; thirteen nodes; `f` = node 13 =
+`ite(c ≡ d, a ∧ b, ¬b)` (all four variables), 4 = `a ∧ b`, 14 = `a ∨ d` (garbage); hypotheses from
+the reachability theorem.  The quantified variables are IN THE MIDDLE of the order (levels 1, 2),
+the operands are complemented and of different supports. -/
+
+/-- the levels the support of `a ∧ b` consists of (via `C03_support_facts` and the evaluated
+answer of `support`) -/
+private theorem usedM_inSupp4 (j : Nat) : InSupp usedM.tbl 4 j ↔ j ∈ [1, 3] := by
+  obtain ⟨names, hs, -, hsem⟩ := C03_support_facts usedM.tbl usedM_good.inv.wf usedM_good.order 4
+    (usedM_mem (by decide))
+  have h4 : support usedM.tbl 4 = .ok ["a", "b"] := by decide +kernel
+  rw [h4] at hs
+  cases hs
+  rw [← hsem j]
+  have : ["a", "b"].map (lvlOf usedM.tbl) = [1, 3] := by decide +kernel
+  rw [this]
+
+/-- `C03_quantify` (names, both quantifiers; levels, in another order), `C03_exist`, `C03_forall`,
+independence, the no-op form (`c`, `d` are not in the support of `a ∧ b`) and the empty set -/
+example :
+    (∀ fa, ∃ r m', quantify (-13) [.name "a", .name "d"] fa usedM = (.ok r, m') ∧ Inv m' ∧
+      Ext usedM.tbl m'.tbl ∧ m'.tbl.Mem r ∧ Frame usedM m' ∧
+      ∀ a, den m'.tbl r a = true ↔
+        (match fa with
+         | true => ∀ b : Asg, (∀ j, j ∉ [1, 2] → b j = a j) → den usedM.tbl (-13) b = true
+         | false => ∃ b : Asg, (∀ j, j ∉ [1, 2] → b j = a j) ∧ den usedM.tbl (-13) b = true)) ∧
+    (∃ r m', quantify 13 [.lvl 2, .lvl 1] false usedM = (.ok r, m') ∧
+      ∀ j, j ∈ [2, 1] → ∀ (a : Asg) (x : Bool), den m'.tbl r (upd a j x) = den m'.tbl r a) ∧
+    (∃ r m', existOp (["d"].map Key.name) 13 usedM = (.ok r, m') ∧ Inv m' ∧ Ext usedM.tbl m'.tbl ∧
+      m'.tbl.Mem r ∧ Frame usedM m' ∧
+      ∀ a, den m'.tbl r a = true ↔
+        ∃ b : Asg, (∀ j, j ∉ ["d"].map (lvlOf usedM.tbl) → b j = a j) ∧
+          den usedM.tbl 13 b = true) ∧
+    (∃ r m', forallOp (["a"].map Key.name) 13 usedM = (.ok r, m') ∧ Inv m' ∧ Ext usedM.tbl m'.tbl ∧
+      m'.tbl.Mem r ∧ Frame usedM m' ∧
+      ∀ a, den m'.tbl r a = true ↔
+        ∀ b : Asg, (∀ j, j ∉ ["a"].map (lvlOf usedM.tbl) → b j = a j) →
+          den usedM.tbl 13 b = true) ∧
+    (∃ m', quantify 4 [.name "c", .name "d"] true usedM = (.ok 4, m') ∧ Inv m' ∧
+      Ext usedM.tbl m'.tbl ∧ Frame usedM m') ∧
+    (∃ m', quantify (-13) [] false usedM = (.ok (-13), m') ∧ Inv m' ∧ Ext usedM.tbl m'.tbl ∧
+      Frame usedM m') := by
+  have hdecl : ∀ (l : List String), l.all (fun s => usedM.tbl.vars.contains s) = true →
+      ∀ s, s ∈ l → usedM.tbl.vars.contains s = true := fun l h s hs => List.all_eq_true.mp h s hs
+  refine ⟨fun fa => C03_quantify usedM usedM_good.inv usedM_good.off (-13) (usedM_mem (by decide))
+      _ fa [1, 2] (by decide +kernel),
+    C03_quantify_indep usedM usedM_good.inv usedM_good.off 13 (usedM_mem (by decide)) _ false
+      [2, 1] (by decide +kernel),
+    C03_exist usedM usedM_good.inv usedM_good.off 13 (usedM_mem (by decide)) ["d"]
+      (hdecl _ (by decide +kernel)),
+    C03_forall usedM usedM_good.inv usedM_good.off 13 (usedM_mem (by decide)) ["a"]
+      (hdecl _ (by decide +kernel)),
+    C03_quantify_noop usedM usedM_good.inv usedM_good.off 4 (usedM_mem (by decide)) _ true [0, 2]
+      (by decide +kernel) ?_,
+    C03_quantify_empty usedM usedM_good.inv usedM_good.off (-13) (usedM_mem (by decide)) false⟩
+  intro j hj hs
+  have := (usedM_inSupp4 j).mp hs
+  simp only [List.mem_cons, List.not_mem_nil, or_false] at hj this
+  omega
+
+/-- the conclusion evaluated (the kernel cannot run the `HashMap` memo of `_quantify`, so the
+TABLE of the result is derived from the theorem and then computed from `f`'s table by the
+kernel; rows c a d b): `∃d. f` = `a ∨ ¬b` and `∀a. f` = `(c xor d) ∧ ¬b`, neither is `f`.
+(`#eval`: the answers are 15 and −15 — NEW nodes —, `∀a,d. ¬f` = −1, `∃a,d. ¬f` = 1,
+`∀c,d. a ∧ b` = 4 with no node added.) -/
+example :
+    (∃ r m', quantify 13 [.lvl 2] false usedM = (.ok r, m') ∧
+      tt4 m'.tbl r = [true, false, true, false, true, true, true, true,
+                      true, false, true, false, true, true, true, true] ∧
+      tt4 m'.tbl r ≠ tt4 usedM.tbl 13) ∧
+    (∃ r m', quantify 13 [.name "a"] true usedM = (.ok r, m') ∧
+      tt4 m'.tbl r = [false, false, true, false, false, false, true, false,
+                      true, false, false, false, true, false, false, false] ∧
+      tt4 m'.tbl r ≠ tt4 usedM.tbl 13) := by
+  constructor
+  · obtain ⟨r, m', he, -, -, -, -, h⟩ := C03_quantify usedM usedM_good.inv usedM_good.off 13
+      (usedM_mem (by decide)) [.lvl 2] false [2] (by decide +kernel)
+    have ht := (tt4_of_iff fun a => (h a).trans (exists_one_level _ a 2)).trans
+      (show _ = [true, false, true, false, true, true, true, true,
+                 true, false, true, false, true, true, true, true] by decide +kernel)
+    exact ⟨r, m', he, ht, by rw [ht]; decide +kernel⟩
+  · obtain ⟨r, m', he, -, -, -, -, h⟩ := C03_quantify usedM usedM_good.inv usedM_good.off 13
+      (usedM_mem (by decide)) [.name "a"] true [1] (by decide +kernel)
+    have ht := (tt4_of_iff fun a => (h a).trans (forall_one_level _ a 1)).trans
+      (show _ = [false, false, true, false, false, false, true, false,
+                 true, false, false, false, true, false, false, false] by decide +kernel)
+    exact ⟨r, m', he, ht, by rw [ht]; decide +kernel⟩
+
+/-- `apply('\\E', ¬(a ∨ d), f)` / `apply('forall', a ∧ b, ¬f)`: the unconditional form on the used
+state — the FIRST operand (complemented, support {a, d} in the middle of the order / {a, b}) only
+contributes its support, the SECOND is quantified.  (`#eval`: the answers are 1 and −1;
+`apply('\\A', a ∧ b, f)` = `quantify(f, {a, b}, forall=True)` = −1.) -/
+example :
+    (∃ r m', apply "\\E" (-14) (some 13) none usedM = (.ok r, m') ∧ Inv m' ∧ Ext usedM.tbl m'.tbl ∧
+      m'.tbl.Mem r ∧ Frame usedM m' ∧
+      (∀ a, den m'.tbl r a = true ↔
+        ∃ b : Asg, (∀ j, ¬ InSupp usedM.tbl (-14) j → b j = a j) ∧ den usedM.tbl 13 b = true) ∧
+      (∀ a, den m'.tbl r a = true ↔
+        ∃ b : Asg, (∀ j, ¬ dependsOn usedM.tbl (-14) j → b j = a j) ∧ den usedM.tbl 13 b = true)) ∧
+    (∃ r m', apply "forall" 4 (some (-13)) none usedM = (.ok r, m') ∧ Inv m' ∧
+      Ext usedM.tbl m'.tbl ∧ m'.tbl.Mem r ∧ Frame usedM m' ∧
+      (∀ a, den m'.tbl r a = true ↔
+        ∀ b : Asg, (∀ j, ¬ InSupp usedM.tbl 4 j → b j = a j) → den usedM.tbl (-13) b = true) ∧
+      (∀ a, den m'.tbl r a = true ↔
+        ∀ b : Asg, (∀ j, ¬ dependsOn usedM.tbl 4 j → b j = a j) → den usedM.tbl (-13) b = true)) :=
+  ⟨C03_apply_quant_support_reachable usedM usedM_good.inv usedM_good.order usedM_good.off
+      "\\E" .exists_ (by decide) (Or.inr rfl) (by decide) (-14) 13 (usedM_mem (by decide))
+      (usedM_mem (by decide)),
+   C03_apply_quant_support_reachable usedM usedM_good.inv usedM_good.order usedM_good.off
+      "forall" .forall_ (by decide) (Or.inl rfl) (by decide) 4 (-13) (usedM_mem (by decide))
+      (usedM_mem (by decide))⟩
+
+/-- the three facts about `support` that the conditional forms take as hypotheses, evaluated:
+`support(¬(a ∨ d))` = {a, d} (levels 1, 2: the middle of the order), `support(a ∧ b)` = {a, b} -/
+example : support usedM.tbl (-14) = .ok ["a", "d"] ∧ support usedM.tbl 4 = .ok ["a", "b"] ∧
+    ["a", "d"].map (lvlOf usedM.tbl) = [1, 2] ∧ ["a", "b"].map (lvlOf usedM.tbl) = [1, 3] :=
+  ⟨by decide +kernel, by decide +kernel, by decide +kernel, by decide +kernel⟩
 
 end DD
